@@ -112,7 +112,9 @@ def iter_call(obj):
     while True:
         yield obj
         try:
-            obj = obj.__call__
+            # like Python, look __call__ up on the type: a __call__ defined in a
+            # class body is what its instances run, not what calling the class runs
+            obj = safe_get(type(obj).__call__, obj, type(obj))
             obj.__code__.co_filename
             # raises if this is the __call__ method of a builtin object
         except AttributeError:
